@@ -127,7 +127,19 @@ func (w *World) exec(i int, s *Step) {
 	e := w.Env
 	p := w.peer(s.Peer)
 	switch s.Kind {
-	case "wait", "", "checkpoint":
+	case "wait", "":
+	case "checkpoint":
+		// an observation point for oracles that compare a neighbour's view with the DUT's tables:
+		// bytes the DUT has already written (a withdrawal caused by a timer just before this
+		// step, say) are delivered first, otherwise the view lags behind by the network delay
+		for k := 0; k < 20; k++ {
+			latest := e.latestDeliveryToPeers()
+			if latest < e.Sim.Now() {
+				break
+			}
+			e.Sim.RunUntil(latest)
+			e.Sim.RunFor(us(1))
+		}
 	case "connect":
 		// a (re)connecting peer has forgotten its previous connection (peer restart): the old
 		// one is reset first. Simultaneous connections are the business of "connect2" (C24).
